@@ -47,6 +47,9 @@ func Relay(c Case) (v *vk.Violation, accepted bool) {
 	if err != nil {
 		return nil, false
 	}
+	// snapshot what was decoded BEFORE re-encoding: encoders may normalise their receiver in place,
+	// and only the documented normalisation (CMPP 2.0 submit 0/0 -> 1/1) is allowed
+	want := gen.Normalise(b, b.Extract(p1))
 	var b2 []byte
 	if pn := vk.Guarded("relay", id+"/hang", func() any { return c }, func() { b2, err = p1.IEncode() }); pn != "" {
 		return vk.Violf(id+"/reencode/panic", c, "%s: re-encoding a decoded PDU panicked (mutation %q)\n%s", id, c.Mutation, pn), true
@@ -54,7 +57,6 @@ func Relay(c Case) (v *vk.Violation, accepted bool) {
 	if err != nil {
 		return vk.Violf(id+"/reencode/error", c, "%s: the decoder accepted the image but the result cannot be encoded again: %v (mutation %q)", id, err, c.Mutation), true
 	}
-	want := gen.Normalise(b, b.Extract(p1))
 	p2 := b.New()
 	if pn := vk.Guarded("relay", id+"/hang", func() any { return c }, func() { err = p2.IDecode(append([]byte{}, b2...)) }); pn != "" {
 		return vk.Violf(id+"/redecode/panic", c, "%s: decoding the re-encoded bytes panicked\n%s", id, pn), true
